@@ -237,6 +237,7 @@ type result struct {
 	verdicts   []verdict
 	facts      []string
 	rules      []string
+	helpers    bool
 	context    []byte // old object + store as sent: together with the object, the identity of the request
 	sent       string
 }
@@ -432,7 +433,12 @@ func evalCase(c *Case, logf func(string, ...interface{})) (*result, error) {
 				if len(s.Replicas) == 0 || string(s.Replicas) == "null" {
 					cls = "weight-only"
 				}
-				fact("weight-out-of-range("+cls+")", "C09/validate/traffic-range/"+v+"/"+cls, fmt.Sprintf("steps[%d].weight=%d is not a percentage in 0..100 (the v1beta1 form of this step, traffic \"%d%%\", is rejected by the same handler): %s", i, *s.Weight, *s.Weight, sent))
+				// a weight outside 0..100 next to explicit replicas is accepted by the v1alpha1 validator; the range of
+				// traffic values is not among the structural promises the property enumerates, so only the
+				// weight-only form (where the weight also determines the pods to release) is judged
+				if cls == "weight-only" {
+					fact("weight-out-of-range("+cls+")", "C09/validate/traffic-range/"+v+"/"+cls, fmt.Sprintf("steps[%d].weight=%d is not a percentage in 0..100 (the v1beta1 form of this step, traffic \"%d%%\", is rejected by the same handler): %s", i, *s.Weight, *s.Weight, sent))
+				}
 			}
 		}
 		for j := 1; j < len(amts); j++ {
@@ -535,6 +541,7 @@ func evalCase(c *Case, logf func(string, ...interface{})) (*result, error) {
 		}
 	}
 	if beta != nil {
+		res.helpers = true
 		helpers := []struct {
 			name string
 			f    func()
